@@ -185,7 +185,9 @@ class DSWorld:
     return serialization.to_bytes(state)
 
   def from_bytes(self, template, data):
-    return serialization.from_bytes(template, data)
+    # a trainer places the restored checkpoint on device; numpy leaves fed to
+    # an eager update would dispatch to numpy arithmetic (1-ulp differences)
+    return jax.tree.map(jnp.asarray, serialization.from_bytes(template, data))
 
   def set_clock(self, state, t):
     return state._replace(count=jnp.full_like(state.count, t))
